@@ -222,14 +222,23 @@ EvalCall(f, vs, p) ==
 -----------------------------------------------------------------------------
 (* Operators *)
 
+\* integers too long for TLC arithmetic (tag "I": canonical decimal text) compare by sign, length, digits
+BigText(v) == IF v.t = "I" THEN v.s ELSE IntText(v.n)
+BigMagLess(x, y) == Len(x) < Len(y) \/ (Len(x) = Len(y) /\ LexLess(x, y))
+BigLess(x, y) == LET nx == x[1] = 45  ny == y[1] = 45 IN
+                 IF nx /\ ~ny THEN TRUE ELSE IF ~nx /\ ny THEN FALSE
+                 ELSE IF nx THEN BigMagLess(Tail(y), Tail(x)) ELSE BigMagLess(x, y)
+BothInt(a, b) == a.t \in {"i", "I"} /\ b.t \in {"i", "I"} /\ "I" \in {a.t, b.t}
 ValEq(a, b) ==      \* "t" / "f" / "u"
+  IF BothInt(a, b) THEN (IF BigText(a) = BigText(b) THEN "t" ELSE "f") ELSE
   IF a.t = "s" /\ b.t = "s" THEN (IF a.s = b.s THEN "t" ELSE "f")
   ELSE IF IsNum(a) /\ IsNum(b) THEN (IF NumEq(a, b) THEN "t" ELSE "f")
   ELSE IF a.t = "b" /\ b.t = "b" THEN (IF a.n = b.n THEN "t" ELSE "f")
   ELSE "u"
 
 ValLess(a, b) ==
-  IF a.t = "s" /\ b.t = "s" THEN (IF LexLess(a.s, b.s) THEN "t" ELSE "f")
+  IF BothInt(a, b) THEN (IF BigLess(BigText(a), BigText(b)) THEN "t" ELSE "f")
+  ELSE IF a.t = "s" /\ b.t = "s" THEN (IF LexLess(a.s, b.s) THEN "t" ELSE "f")
   ELSE IF IsNum(a) /\ IsNum(b) THEN (IF NumLess(a, b) THEN "t" ELSE "f")
   ELSE "u"
 
